@@ -61,6 +61,9 @@ type Script struct {
 	// unite: the producer cuts its input slices out of one backing array (as a producer that
 	// parses one buffer would) instead of allocating each slice separately
 	SharedArray bool `json:"producer_shares_one_array"`
+	// SharedLayout: how the input slices are laid out in that array: 0 in the order they are sent,
+	// 1 neighbours swapped pairwise, 2 rotated by one (a producer filling a ring or sending out of order)
+	SharedLayout int `json:"shared_array_layout"`
 	// unite: empty input slices are sent as nil instead of as zero-length slices
 	NilEmpty bool `json:"empty_slices_are_nil"`
 }
@@ -220,8 +223,34 @@ func execute1(t *testing.T, s Script, leakScan bool, budget time.Duration) Trace
 				total += st.Len
 			}
 			arr := make([]int, total)
-			for i := range arr {
-				arr[i] = i
+			// offset of every input slice inside the shared array
+			order := make([]int, len(s.Prod))
+			for i := range order {
+				order[i] = i
+			}
+			switch s.SharedLayout {
+			case 1:
+				for i := 0; i+1 < len(order); i += 2 {
+					order[i], order[i+1] = order[i+1], order[i]
+				}
+			case 2:
+				if len(order) > 1 {
+					order = append(order[1:], order[0])
+				}
+			}
+			offs := make([]int, len(s.Prod))
+			pos := 0
+			for _, si := range order {
+				offs[si] = pos
+				pos += s.Prod[si].Len
+			}
+			// the producer has all its data in place before it starts sending
+			v := 0
+			for si, st := range s.Prod {
+				for i := 0; i < st.Len; i++ {
+					arr[offs[si]+i] = v
+					v++
+				}
 			}
 			for si, st := range s.Prod {
 				select {
@@ -236,7 +265,7 @@ func execute1(t *testing.T, s Script, leakScan bool, budget time.Duration) Trace
 						sl[i] = next + i
 					}
 					if s.SharedArray {
-						sl = arr[next : next+st.Len]
+						sl = arr[offs[si] : offs[si]+st.Len]
 					}
 					if s.NilEmpty && st.Len == 0 {
 						sl = nil
